@@ -614,6 +614,8 @@ fn default_writer(
             sval::stream_display(&mut *stream, self.0.tpl())?;
             stream.record_value_end(None, &sval::Label::new(KEY_TPL))?;
 
+            let mut result = Ok(());
+
             let _ = self.0.props().dedup().for_each(|k, v| {
                 match (|| {
                     stream.record_value_begin(None, &sval::Label::new_computed(k.get()))?;
@@ -623,9 +625,16 @@ fn default_writer(
                     Ok::<(), sval::Error>(())
                 })() {
                     Ok(()) => ControlFlow::Continue(()),
-                    Err(_) => ControlFlow::Break(()),
+                    Err(e) => {
+                        result = Err(e);
+                        ControlFlow::Break(())
+                    }
                 }
             });
+
+            // A value that can't be written as JSON (like a map with a sequence for a key)
+            // fails the whole event rather than leaving a truncated record in the file
+            result?;
 
             stream.record_end(None, None, None)
         }
